@@ -1,9 +1,9 @@
 /- C07 driver, document tier (Spec side only): abstract document -> verdict of `validDoc` + reported content.
 
-   X <doctype> <standalone 0|1|2> <hasExt 0|1> <ndecls> {EL <name> <spec> <ext01> <natts> {<aname> <type> <dflt> <ext01>}}
-     <nents> {<ename> <ext01>} <elem>                         (standalone: 0 absent, 1 "no", 2 "yes")
+   X <doctype> <standalone 0|1|2> <hasExt 0|1> <ndecls> {EL <name> <spec> <origin> <natts> {<aname> <type> <dflt> <origin>}}   origin: 0 internal subset, 1 external subset, 2 via PE referenced in the internal subset
+     <nents> {<ename> <origin>} <unparsed val> <elem>                         (standalone: 0 absent, 1 "no", 2 "yes")
    elem := E <name> <text01> <ws01> <refs val> <nattrs> {<aname> <val> <padded01>} <nchildren> {elem}
-   type := C | I | R | RS | N | NS | G:<t.t.t>           dflt := REQ | IMP | FIX:<val> | DEF:<val>
+   type := C | I | R | RS | N | NS | Y (ENTITY) | YS (ENTITIES) | G:<t.t.t>           dflt := REQ | IMP | FIX:<val> | DEF:<val>
    val  := t.t.t (decimal ids) | -                        <spec> as in XV.Driver.ContentModel (E, A, M012, N, K…)
    ->  "valid dump=<…>"  |  "invalid:<class,…> dump=<…>"  |  "notwf:<class,…> dump=-"
    dump format = harness/hx_cm.cpp dumpDom: per element in document order "<eN,aK=v1 v2[!]…|n>" sorted by attribute
@@ -21,6 +21,7 @@ def parseType (s : String) : Option AttType :=
   match s with
   | "C" => some .cdata | "I" => some .id | "R" => some .idref | "RS" => some .idrefs
   | "N" => some .nmtoken | "NS" => some .nmtokens
+  | "Y" => some .entity | "YS" => some .entities
   | _ => if s.startsWith "G:" then (parseVal (s.drop 2).toString).map .enum else none
 
 def parseDflt (s : String) : Option Dflt :=
@@ -33,7 +34,7 @@ def parseAtts : Nat → List String → Option (List AttDef × List String)
   | 0, ts => some ([], ts)
   | n + 1, an :: ty :: df :: ex :: ts =>
     match an.toNat?, parseType ty, parseDflt df, parseAtts n ts with
-    | some a, some t, some d, some (rest, ts') => some (⟨a, t, d, ex == "1"⟩ :: rest, ts')
+    | some a, some t, some d, some (rest, ts') => some (⟨a, t, d, ex == "1", ex == "2"⟩ :: rest, ts')
     | _, _, _, _ => none
   | _, _ => none
 
@@ -45,7 +46,7 @@ def parseDecls : Nat → List String → Option (List ElemDecl × List String)
       match parseAtts natts ts with
       | some (atts, ts1) =>
         match parseDecls n ts1 with
-        | some (rest, ts2) => some (⟨name, spec, atts, ex == "1"⟩ :: rest, ts2)
+        | some (rest, ts2) => some (⟨name, spec, atts, ex == "1", ex == "2"⟩ :: rest, ts2)
         | none => none
       | none => none
     | _, _, _ => none
@@ -63,7 +64,7 @@ def parseEnts : Nat → List String → Option (List EntDecl × List String)
   | 0, ts => some ([], ts)
   | n + 1, nm :: ex :: ts =>
     match nm.toNat?, parseEnts n ts with
-    | some a, some (rest, ts') => some (⟨a, ex == "1"⟩ :: rest, ts')
+    | some a, some (rest, ts') => some (⟨a, ex == "1", ex == "2"⟩ :: rest, ts')
     | _, _ => none
   | _, _ => none
 
@@ -106,11 +107,13 @@ def parseDoc (ws : List String) : Option Doc :=
         match ne.toNat? with
         | some nents =>
           match parseEnts nents ts1 with
-          | some (ents, ts2) =>
-            match parseElem (ts2.length + 1) ts2 with
-            | some (root, []) => some { doctype := doctype, decls := decls, root := root,
-                                        standalone := sa == "2", hasExt := he == "1", ents := ents }
-            | _ => none
+          | some (ents, up :: ts2) =>
+            match parseVal up, parseElem (ts2.length + 1) ts2 with
+            | some unparsed, some (root, []) =>
+              some { doctype := doctype, decls := decls, root := root, standalone := sa == "2",
+                     hasExt := he == "1", ents := ents, unparsed := unparsed }
+            | _, _ => none
+          | some (_, []) => none
           | none => none
         | none => none
       | _ => none
